@@ -106,7 +106,7 @@ def run(ctx):
         }[form]
 
     try:
-        for ai, (appname, iface, app, path) in enumerate(apps):
+        for ai, (appname, iface, app, path) in enumerate(apps if not os.environ.get("C14_TRACES_ONLY") else []):   # (debugging aid)
 
             def make_real(init):
                 return []      # real responses recorded so far (parallel to the model's resp)
@@ -157,11 +157,155 @@ def run(ctx):
                 return real
 
             graph.dfs_replay(g, make_real, step)
+        long_histories(ctx, wd, apps, proxy, target, do_request, headers_for)
         ctx.sample({"history_example": "Plain; RewriteSameSize; Cond(1, weakListLast) -> 200 with new validators", "apps": [a[0] + "/" + a[1] for a in apps]})
     finally:
         SF.os = saved
         shutil.rmtree(base, True)
     ctx.exhaustive = True
+
+
+FORMS = ["etag", "weak", "listFirst", "listLast", "weakListLast", "star", "lm", "both", "bothRev", "staleEtag", "weakFirstThenTag", "listTwoLines"]
+TRACE_TPS = 3
+TRACE_INV = INV + ["TPlainOK", "TStatusOK", "TBodyCurrent", "TTagged"]
+
+
+def long_histories(ctx, wd, apps, proxy, target, do_request, headers_for):
+    """code -> spec: random histories far longer than the exhaustive bound, recorded on the real applications and judged by TLC:
+    the invariants of Conditional.tla evaluated on what was observed (violation), the decision rule itself (drift)"""
+    import email.utils
+    import random
+    import re
+    from .. import tracecheck
+    wd = tlc.workdir_for("c14trace")     # (the directory of the first TLC run has been reused for the file tree)
+    n_hist, n_steps = (60, 70) if ctx.tier == "quick" else (400, 150)
+    rnd = random.Random(1000 + ctx.seed)
+    traces, meta = [], []
+    for h in range(n_hist):
+        appname, iface, app, path = apps[h % len(apps)]
+        fs = {"ver": 1, "size": 3, "mtime": TRACE_TPS, "ctime": TRACE_TPS}
+        clock, used, real, etags, events = 2 * TRACE_TPS, {TRACE_TPS}, [], {}, []
+
+        def put():
+            with open(target, "wb") as f:
+                f.write(content(fs["ver"], fs["size"]))
+            proxy.virtual = (fs["size"], BASE + fs["mtime"] / TRACE_TPS, BASE + fs["ctime"] / TRACE_TPS)
+
+        def observe(o):
+            m = re.match(rb"v(\d+)", o["body"])
+            lm = 0
+            if o["lm"]:
+                try:
+                    lm = int(email.utils.parsedate_to_datetime(o["lm"]).timestamp()) - BASE
+                except (TypeError, ValueError):
+                    lm = 0
+            eid = 0
+            if o["status"] == 200 and o["etag"]:
+                eid = etags.setdefault(o["etag"], len(etags) + 1)
+            return {"status": o["status"] or 0, "ver": int(m.group(1)) if m else 0, "eid": eid, "lm": max(lm, 0), "empty": o["body"] == b""}
+
+        for _ in range(n_steps):
+            x = rnd.random()
+            if x < 0.12:
+                n = rnd.choice([1, 1, 2, TRACE_TPS, TRACE_TPS + 1, 3 * TRACE_TPS])
+                clock += n
+                events.append({"a": "Tick", "n": n})
+            elif x < 0.30:
+                kind = rnd.choice(["same", "other", "touch"])
+                size = fs["size"] if kind != "other" else rnd.choice([s for s in (3, 4, 5, 7, 9) if s != fs["size"]])
+                clock += 1
+                fs = {"ver": fs["ver"] + (kind != "touch"), "size": size, "mtime": clock, "ctime": clock}
+                used.add(clock)
+                events.append({"a": "Mod", "size": size, "newver": kind != "touch"})
+            elif x < 0.36:
+                ds = [d for d in range(1, 2 * TRACE_TPS + 2) if fs["mtime"] - d >= 0 and fs["mtime"] - d not in used]
+                if not ds:
+                    continue
+                d = rnd.choice(ds)
+                clock += 1
+                used.add(fs["mtime"] - d)
+                fs = {"ver": fs["ver"] + 1, "size": fs["size"], "mtime": fs["mtime"] - d, "ctime": clock}
+                events.append({"a": "Restore", "d": d})
+            elif x < 0.40:
+                clock += 1
+                fs = dict(fs, ctime=clock)
+                events.append({"a": "Chmod"})
+            elif x < 0.55 or not real:
+                put()
+                o = do_request(app, iface, path, [])
+                ev = dict(observe(o), a="Plain")
+                events.append(ev)
+                ctx.count()
+                if ev["status"] == 200 and o["etag"] and o["lm"]:
+                    real.append(o)
+            else:
+                put()
+                j = len(real) - rnd.randrange(min(len(real), 4)) if rnd.random() < 0.8 else rnd.randrange(len(real)) + 1
+                f = rnd.choice(FORMS)
+                o = do_request(app, iface, path, headers_for(f, real[j - 1]))
+                ev = dict(observe(o), a="Cond", j=j, f=f)
+                events.append(ev)
+                ctx.count()
+                ctx.nontriv(("long", h, len(events)))
+                if ev["status"] == 200:
+                    if not (o["etag"] and o["lm"]):
+                        break          # a full response without validators: the invariants report it; nothing can follow from it
+                    real.append(o)
+            if events[-1]["a"] in ("Plain", "Cond") and events[-1]["status"] == 200 and len(real) != sum(
+                    1 for e in events if e["a"] in ("Plain", "Cond") and e["status"] == 200):
+                break
+        traces.append({"events": events})
+        meta.append({"app": appname, "iface": iface})
+    tk = dict(TPS=TRACE_TPS, MaxSteps=1000000, MaxResp=1000000)
+    acc, rejected = tracecheck.validate(wd, "TraceConditional", traces, constants=dict(tk, Strict=False), invariants=TRACE_INV)
+    ctx.traces_validated += acc
+    bad = set()
+    for tid, name, st in tracecheck.validate.last_invariant_failures:
+        bad.add(tid)
+        lastrec = (st or {}).get("last", {}) if isinstance(st, dict) else {}
+        upto = (st or {}).get("l", 1) - 1 if isinstance(st, dict) else len(traces[tid]["events"])
+        ctx.violation(dict(meta[tid], history=traces[tid]["events"][:upto], source="long recorded history"),
+                      "invariant %s of Conditional.tla on the observed responses" % name, {"file": (st or {}).get("file"), "response": lastrec},
+                      "recorded history of %d steps: the observed response violates %s (%s/%s, form %s)" % (
+                          upto, name, meta[tid]["app"], meta[tid]["iface"], lastrec.get("form", "plain")))
+    for tid, prefix in rejected:
+        if tid not in bad:
+            raise common.MachineryError("TraceConditional (observation mode) cannot follow the driver's own history %d at event %d: %r" % (
+                tid, prefix + 1, traces[tid]["events"][prefix:prefix + 1]))
+    good = [t for i, t in enumerate(traces) if i not in bad]
+    acc2, rejected2 = tracecheck.validate(wd, "TraceConditional", good, constants=dict(tk, Strict=True))
+    for tid, prefix in rejected2:
+        t = good[tid]
+        ctx.drift_at({"history": t["events"][:prefix + 1]}, "the decision rule of Conditional.tla", t["events"][prefix] if prefix < len(t["events"]) else None,
+                     "recorded history departs from the decision rule of Conditional.tla at event %d" % (prefix + 1))
+    ctx.sample({"long_history_steps": len(traces[0]["events"]), "first_events": traces[0]["events"][:5], "histories": len(traces)})
+    binding_selftest(ctx, wd, good, tk)
+
+
+def binding_selftest(ctx, wd, traces, tk):
+    """the trace specification must reject a falsified observation: every 304 after a modification turned into ... is not needed -
+    one status flipped per history must violate an invariant or (strict reading) be rejected"""
+    import copy
+    from .. import tracecheck
+    fal = []
+    for t in traces[:12]:
+        idx = [i for i, e in enumerate(t["events"]) if e["a"] == "Cond" and e["f"] not in ("star",)]
+        if not idx:
+            continue
+        t2 = copy.deepcopy(t)
+        e = t2["events"][idx[len(idx) // 2]]
+        if e["status"] == 200:
+            e.update(status=304, ver=0, eid=0, lm=0, empty=True)
+        else:
+            e.update(status=200, ver=1, eid=1, lm=0, empty=False)
+        t2["events"] = t2["events"][:idx[len(idx) // 2] + 1]
+        fal.append(t2)
+    if not fal:
+        return
+    acc, rej = tracecheck.validate(wd, "TraceConditional", fal, constants=dict(tk, Strict=True))
+    if acc:
+        raise common.MachineryError("binding self-test: %d of %d falsified histories were accepted by TraceConditional (strict)" % (acc, len(fal)))
+    ctx.notes.append("binding self-test: %d histories with one flipped status all rejected by TraceConditional" % len(fal))
 
 
 def _j(o):
